@@ -123,6 +123,9 @@ FUNCS = OrderedDict([
     # the dict form with keyword options: func1d=scale_shift, a=..., b=...
     ('ss_2_1', lambda x: x * 2. + 1.),
     ('ss_m1_3', lambda x: x * -1. + 3.),
+    # ... whose (required) option decides the output length: func1d=head, n=...
+    ('head_1', lambda x: x[:1]),
+    ('head_2', lambda x: x[:2]),
 ])
 
 
